@@ -90,7 +90,7 @@ def tables_close(a, b, tol_of):
 class C05(Prop):
     id = "C05"
     anchored = ["src/pewlib/io/imzml.py"]
-    cases = {"quick": 1500, "thorough": 40000}
+    cases = {"quick": 1500, "thorough": 20000}
     rule = ("synthetic imzML/ibd pairs: images 1x1..4x4, random subsets of pixels (also none), per-pixel or shared m/z axes of "
             "1..8 strictly increasing dyadic values, f32/f64 arrays, TIC stored/absent, image size present/absent; 1..5 target "
             "masses with ppm or absolute widths whose edges are exactly representable, spectra drawn from a grid plus the window "
